@@ -379,10 +379,31 @@ extern "C" size_t LLVMFuzzerCustomMutator(uint8_t* data, size_t size, size_t max
         }
         for (size_t sec = 0; sec < nsec && sec < 16; sec++)
           for (size_t k : {8, 12, 16, 20, 36}) known.push_back(opt + optsz + sec * 40 + k);
-        // follow a data directory RVA naively into the file
-        size_t dirv = rd32(data, size, opt + 96 + (next() % 16) * 8);
-        if (dirv && dirv < size)
-          for (size_t k = 0; k < 48; k += 4) known.push_back(dirv + k);
+        // follow a data directory RVA into the file through the section table and
+        // aim at 16/32-bit words anywhere inside the directory's data (import /
+        // export / resource / version-info / certificate / debug structures)
+        size_t dd = next() % 16;
+        size_t drva = rd32(data, size, opt + 96 + dd * 8), dsz = rd32(data, size, opt + 100 + dd * 8);
+        size_t doff = drva;
+        for (size_t sec = 0; sec < nsec && sec < 32; sec++)
+        {
+          size_t sh = opt + optsz + sec * 40;
+          size_t va = rd32(data, size, sh + 12), vs = rd32(data, size, sh + 8), raw = rd32(data, size, sh + 20);
+          if (drva >= va && drva < va + (vs ? vs : 1))
+          {
+            doff = raw + (drva - va);
+            break;
+          }
+        }
+        if (doff && doff < size)
+        {
+          size_t span = dsz ? dsz : 64;
+          if (doff + span > size)
+            span = size - doff;
+          if (dd == 2)
+            span = std::min<size_t>(size - doff, 8192);  // resources: the leaves follow the directory
+          for (int k = 0; k < 24 && span > 8; k++) known.push_back(doff + ((next() % span) & ~(size_t) 1));
+        }
       }
     }
     else if (size > 0x40 && data[0] == 0x7f && data[1] == 'E')
